@@ -11,6 +11,9 @@ B3(i) == <<e.a[i], e.a[i + 1], e.a[i + 2]>>
 Chunks(nc) == [i \in 1..nc |-> B3(3 * i + 1)]
 Expected ==
     CASE e.op = "menc" -> MencObs(k, e.a[2], e.a[3], e.a[4], e.a[5])
+      \* msinkhuge k d: SSIZE_MAX - d octets into an accounting sink.  Only the prefix of unbounded width can announce such a length
+      \* (nine octets); prefix and payload together must still be a reportable total, i.e. d >= 9 - else refused with nothing emitted
+      [] e.op = "msinkhuge" -> IF k = 0 /\ e.a[2] >= 9 THEN <<0, e.a[2] - 9, 1>> ELSE <<-1, 0>>
       [] e.op = "benc" -> BencObs(k, B3(2))
       [] e.op = "bencn" -> BencnObs(k, B3(2), e.a[5])
       [] e.op = "cuse" -> CuseObs(k, Drop(Chunks(e.a[3]), e.a[2]))
